@@ -79,9 +79,11 @@ impl WriteCircuitBreaker {
 
                 // A concurrent failure report may have stored a later timestamp than `now`
                 if now.saturating_sub(last_failure) >= self.recovery_timeout.as_millis() as u64 {
-                    // Transition to half-open to test recovery
+                    // Transition to half-open to test recovery. The request that triggers
+                    // the transition is itself a probe and counts against the limit.
                     self.transition_to_half_open();
-                    true
+                    let current_calls = self.half_open_call_count.fetch_add(1, Ordering::AcqRel);
+                    current_calls < self.half_open_max_calls
                 } else {
                     false // Still in failure mode
                 }
